@@ -389,6 +389,16 @@ def run_check(pid, tier, seed, replay=None):
                         c_fails.append((ostage, l, o))
                 if ls and len(samples) < 6:
                     samples.append(dict(oracle=ostage, family=family, input=show_input(ls[len(ls) // 2]), verdict=outs[len(ls) // 2][:200]))
+            # fresh processes must agree with each other (first use in a process included)
+            for family, stage, nq, nt, k in cfg.get("repeat", []):
+                ls = inputs_for(family, nq, nt, stage)
+                outs = [run_lines("impl", stage, ls, shards=1) for _ in range(k)]
+                evaluations += len(ls) * k
+                for i, l in enumerate(ls):
+                    if len(set(o[i] for o in outs)) > 1:
+                        variants = sorted(set(bytes.fromhex(o[i]).decode("utf-8", "replace")[:300] for o in outs))
+                        c_fails.append(("fresh-process:" + stage, l, "FAIL results differ between fresh processes: " + " <> ".join(variants)[:500]))
+                dist["%s/%s:x%d" % (family, stage, k)] = len(ls)
             # B
             if model_available:
                 for run_ in runs:
